@@ -50,6 +50,9 @@ type Cfg struct {
 	OnChg  int    `json:"onchange"`
 	// OnChgFirst: the OnChange listeners are registered before the BeforeChange ones.
 	OnChgFirst bool `json:"onChgFirst,omitempty"`
+	// Late: the store has already been written to (a record created and deleted) when the
+	// listeners are registered.
+	Late bool `json:"late,omitempty"`
 }
 
 // Op is one operation of a history.
@@ -81,6 +84,9 @@ type fixture struct {
 	mu      sync.Mutex
 	log     []change
 	newIDs  int
+	// seenViol: a change callback that looked the record up found something else than the
+	// value it was told is the new one
+	seenViol string
 }
 
 func gid() uint64 {
@@ -173,7 +179,22 @@ func newFixture(cfg Cfg) (*fixture, error) {
 	f := &fixture{cfg: cfg}
 	onChangeN := func(cb int) func(id string, before, after interface{}) {
 		return func(id string, before, after interface{}) {
+			seen := ""
+			if bs, ok := f.st.(*badgerstore.Store); ok && cb == 0 {
+				// a listener may look at the store (Get takes no key lock): the mutation it is
+				// told about is what the store holds
+				if v, err := bs.Get(id); err == nil {
+					seen = enc(v)
+				} else if !errors.Is(err, store.ErrNotFound) {
+					seen = "error: " + err.Error()
+				}
+			} else {
+				seen = enc(after)
+			}
 			f.mu.Lock()
+			if seen != enc(after) && f.seenViol == "" {
+				f.seenViol = fmt.Sprintf("the change callback for id %q was given the new value %s, a Get of the id made inside the callback returns %q", id, enc(after), seen)
+			}
 			f.log = append(f.log, change{ID: id, Before: enc(before), After: enc(after), G: gid(), CB: cb})
 			f.mu.Unlock()
 		}
@@ -190,6 +211,19 @@ func newFixture(cfg Cfg) (*fixture, error) {
 			st.SetType(item{})
 		}
 		st.SetPrefix(cfg.Prefix)
+		f.st = st
+		if cfg.Late {
+			tx := st.Write("warm-up")
+			err := tx.Create(f.value(1))
+			if err == nil {
+				err = tx.Delete()
+			}
+			_ = tx.Close()
+			if err != nil {
+				cleanup()
+				return nil, fmt.Errorf("VERIF-INCONCLUSIVE: warm-up write: %v", err)
+			}
+		}
 		if cfg.OnChgFirst {
 			for i := 0; i < cfg.OnChg; i++ {
 				st.OnChange(onChangeN(i))
@@ -473,6 +507,9 @@ func runSequential(c Case) (msg string, failing int, readAfterWrite bool) {
 			return fmt.Sprintf("final scan: id %q holds %s, the model has no such id", id, enc(v)), failing, readAfterWrite
 		}
 	}
+	if f.seenViol != "" {
+		return f.seenViol, failing, readAfterWrite
+	}
 	return "", failing, readAfterWrite
 }
 
@@ -483,6 +520,7 @@ func genCfg() *rapid.Generator[Cfg] {
 		c.Vetoes = rapid.IntRange(0, 3).Draw(t, "vetoes")
 		c.OnChg = rapid.SampledFrom([]int{1, 1, 2, 0}).Draw(t, "onchange")
 		c.OnChgFirst = rapid.Bool().Draw(t, "onChgFirst")
+		c.Late = rapid.IntRange(0, 2).Draw(t, "late") == 0
 		return c
 	})
 }
@@ -669,6 +707,9 @@ func runConcurrent(cfg Cfg, progs [][]COp) (msg string, contended bool) {
 		if len(w) >= 2 {
 			contended = true
 		}
+	}
+	if f.seenViol != "" {
+		return f.seenViol, contended
 	}
 	// (1) linearizability per id
 	ids := make([]string, 0, len(ops))
